@@ -97,6 +97,8 @@ Why(e) ==
          IF phase = "running" /\ ~(pulled = conf.n /\ submitted = 0..(conf.n - 1) /\ endedT = submitted
                                    /\ InFlight = {})
          THEN "C16.OverlappingCallNotRejected" ELSE "ok"
+    [] e.ev = "OverlapYield" ->   \* the accepted second call (its input is empty) produced a result
+         "C16.OverlappingCallMixesRuns"
     [] e.ev = "PullIn" ->
          IF ~Live(e.c) THEN "C09.PullOutsideCall"
          ELSE IF pulling # 0 THEN "C09.TwoThreadsInInput"
